@@ -303,7 +303,7 @@ KINDS = ["cycle", "cycle", "cycle", "burst", "burst", "canrep", "canrep", "looku
          "resp", "hostile", "hostile", "lookup", "d8", "d8b", "oversize", "repeat"]
 
 
-# the "state size" family (review 2, finding 4/5): one case in twenty mixes these in, so that replies, browser queries and truncated
+# the "state size" family (review 2, finding 4/5): one case in forty mixes these in, so that replies, browser queries and truncated
 # trains exceed one datagram / two packets (they are an order of magnitude slower to simulate than the other kinds)
 KINDS_BIG = ["bigq", "bigq", "flood", "tctrain", "tctrain", "addrswap", "addrswap", "query", "resp", "lookup", "cycle", "burst", "d8b", "hostile", "livemut"]
 
@@ -367,7 +367,7 @@ def gen_item(rng, live, names, last, k=None):
 
 def gen_case(seed, idx):
     rng = C.rng_for(seed, "c15case", idx)
-    big = idx % 20 == 7
+    big = idx % 40 == 7
     if big:
         return {"seed": seed, "idx": idx, "big": True, "n_services": 2, "browse_own": rng.random() < 0.5, "lookup": True, "start": rng.choice([0, 300]),
                 "maxdelay": rng.choice([0, 5]), "tail": rng.choice([2000, 20000, 400000]), "n_items": rng.choice([8, 15]), "canary_id": 4242 + idx}
@@ -557,6 +557,23 @@ def simulate(case):
                     return True
             return False
         browsers = [AsyncServiceBrowser(zc, [TB], listener=L()), AsyncServiceBrowser(zc, [TB, TA] if case["browse_own"] else [TB], handlers=[handler])]
+        # one case in five also has a threaded `ServiceBrowser` (its handlers run in a dedicated thread fed by a queue: `browser.py`
+        # `ServiceBrowser.async_update_records_complete` / `run`); its callbacks are only used for the threaded canary
+        tbrowser, tcb = None, []
+        if case.get("threaded", case["idx"] % 5 == 2):
+            from zeroconf import ServiceBrowser
+
+            class LT(ServiceListener):
+                def add_service(s, zc, t, n):
+                    tcb.append(("add", n))
+
+                def remove_service(s, zc, t, n):
+                    tcb.append(("rem", n))
+
+                def update_service(s, zc, t, n):
+                    tcb.append(("upd", n))
+
+            tbrowser = ServiceBrowser(zc, [TB], listener=LT())
         await sim.sleep_ms(case["start"])
         lookup = None
         lookup_res = {}
@@ -673,6 +690,12 @@ def simulate(case):
         await sim.sleep_ms(1000)
         got = {(c[1], c[2]) for c in obs["callbacks"][c0:] if c[3] == cname + "." + TB}
         obs["canary_a"] = sorted(t for t, e in got if e == "add")
+        if tbrowser is not None:
+            # the handler thread runs in real time: give it up to 3 s (it needs microseconds)
+            t_end = time.time() + 3.0
+            while time.time() < t_end and ("add", cname + "." + TB) not in list(tcb):
+                time.sleep(0.002)
+            obs["canary_t"] = ("add", cname + "." + TB) in list(tcb)
         r = deliver(announce_packet(CYC, TB, "hcyc.local.", PEER, port=82), (PEER, 5353))
         obs["canary_c_raised"] = r
         await sim.sleep_ms(1000)
@@ -687,6 +710,9 @@ def simulate(case):
         obs["end"] = sim.now()
         for b in browsers:
             await b.async_cancel()
+        if tbrowser is not None:
+            tbrowser.cancel()
+            await asyncio.sleep(0)
         await zc._async_close()
 
     try:
@@ -742,6 +768,8 @@ def judge(obs):
                     "latest Added/Removed callback for it is Added are %s, expected both" % obs.get("canary_c")))
     if obs.get("canary_a") != ["h", "l"]:
         bad.append(("C15:canary-announcement-unseen", "a well-formed announcement sent after the stream produced Added in %s, expected both browsers" % obs.get("canary_a")))
+    if obs.get("canary_t") is False:
+        bad.append(("C15:canary-announcement-unseen-threaded", "a well-formed announcement sent after the stream did not reach the handler thread of the threaded ServiceBrowser"))
     if obs.get("lookup", {}).get("raised"):
         bad.append(("C15:lookup-raised:%s" % obs["lookup"]["raised"], "the lookup in progress ended with an exception"))
     return bad
